@@ -91,7 +91,13 @@ def check(ctx):
     ctx.count("key_forming_functions", n_funcs)
     ctx.floor("key_forming_functions", 80, "functions forming a key with tokenize outside dask/dataframe")
 
-    # ---------------- N1
+    name_overrides(ctx)
+    _expr_token(ctx)
+
+
+def name_overrides(ctx):
+    """N1: every `_name` override of an expression class carries the deterministic token."""
+    model = ctx.model
     n_names = 0
     for rel in model.package_files("dask"):
         if not (rel.startswith("dask/dataframe/dask_expr/") or rel.startswith("dask/array/_array_expr/") or rel == "dask/_expr.py"):
@@ -115,7 +121,10 @@ def check(ctx):
     ctx.count("name_overrides", n_names)
     ctx.floor("name_overrides", 25, "`_name` overrides in expression classes")
 
-    # ---------------- Expr token
+
+
+def _expr_token(ctx):
+    model = ctx.model
     em = model.module("dask/_expr.py")
     ex = model.klass("dask/_expr.py", "Expr")
     dt = ex.own_methods.get("deterministic_token")
